@@ -3,8 +3,8 @@
    system as C01 (Model/CopySpec.v); [accepts g c d0 tr = Some st] = tr is a run of
    Copy/CopyGraph.  A trace quantifier covers every interleaving and every latency
    assignment (a latency assignment only selects an interleaving of the visible events). *)
-From Oras Require Import Base.Prelude Generated.GC04 Model.CopySpec Model.CopyTop
-  Proofs.CopySpec Proofs.CopyAcct.
+From Oras Require Import Base.Prelude Generated.GC04 Model.CopySpec Model.CopyTop Model.CopyOpt
+  Proofs.CopySpec Proofs.CopyAcct Proofs.CopyOpt.
 Local Open Scope nat_scope.
 
 (* at every instant (every prefix of every accepted trace) at most K source reads
@@ -98,3 +98,68 @@ Example C04_example :
   exists st, accepts g_ex c_ex [1] tr_ex = Some st /\ returned st = Some true /\
              cnt (is_fetch 0) tr_ex = 1 /\ cnt (is_cb CSkip 1) tr_ex = 1 /\ c_K c_ex = 2.
 Proof. eexists. split; [vm_compute; reflexivity|]. repeat split; reflexivity. Qed.
+
+(* ---- optional callbacks (Model/CopyOpt.v): the statements for every choice [cs] of which
+   callbacks are set; tr is the recorded trace (no event of a nil callback), full its
+   elaboration accepted by the transition system ---- *)
+Theorem C04_inflight_any_callbacks :
+  forall (cs : cbset) (g : graph) (c : cfg) (d0 : list node) (tr1 tr2 : list event)
+         (st : state) (full : list event),
+    accepts_opt cs g c d0 (tr1 ++ tr2) = Some (st, full) ->
+    exists st1 f1, accepts_opt cs g c d0 tr1 = Some (st1, f1) /\
+                   inflight_src g st1 <= c_K c /\ inflight_dst g st1 <= c_K c.
+Proof. exact inflight_opt. Qed.
+Print Assumptions C04_inflight_any_callbacks.
+
+Theorem C04_single_transfer_any_callbacks :
+  forall (cs : cbset) (g : graph) (c : cfg) (d0 : list node) (tr : list event) (st : state)
+         (full : list event) (n : node),
+    accepts_opt cs g c d0 tr = Some (st, full) ->
+    cnt (is_fetch n) tr <= 1 /\ cnt (is_push n) tr <= 1.
+Proof. exact single_transfer_opt. Qed.
+Print Assumptions C04_single_transfer_any_callbacks.
+
+Theorem C04_callback_at_most_once_any_callbacks :
+  forall (cs : cbset) (g : graph) (c : cfg) (d0 : list node) (tr : list event) (st : state)
+         (full : list event) (k : cbk) (n : node),
+    accepts_opt cs g c d0 tr = Some (st, full) -> cnt (is_cb k n) tr <= 1.
+Proof. exact callback_once_opt. Qed.
+Print Assumptions C04_callback_at_most_once_any_callbacks.
+
+(* an uploaded node of a successful copy: each of PreCopy / PostCopy that is set is invoked
+   exactly once; OnCopySkipped is not invoked *)
+Theorem C04_transferred_any_callbacks :
+  forall (cs : cbset) (g : graph) (c : cfg) (d0 : list node) (tr : list event) (st : state)
+         (full : list event) (n : node) (e : event),
+    accepts_opt cs g c d0 tr = Some (st, full) -> returned st = Some true ->
+    In e tr -> is_xfer n e ->
+    (cs CPre = true -> cnt (is_cb CPre n) tr = 1) /\
+    (cs CPost = true -> cnt (is_cb CPost n) tr = 1) /\
+    cnt (is_cb CSkip n) tr = 0.
+Proof. exact transferred_opt. Qed.
+Print Assumptions C04_transferred_any_callbacks.
+
+Theorem C04_mounted_any_callbacks :
+  forall (cs : cbset) (g : graph) (c : cfg) (d0 : list node) (tr : list event) (st : state)
+         (full : list event) (n : node),
+    accepts_opt cs g c d0 tr = Some (st, full) -> returned st = Some true ->
+    In (MtE n MMounted) tr -> cs CMounted = true -> cnt (is_cb CMounted n) tr = 1.
+Proof. exact mounted_opt. Qed.
+Print Assumptions C04_mounted_any_callbacks.
+
+(* order, read on the elaborated trace: where a hook is nil, the point at which the code
+   would have invoked it counts as the notification *)
+Theorem C04_postcopy_after_successors_any_callbacks :
+  forall (cs : cbset) (g : graph) (c : cfg) (d0 : list node) (tr : list event) (st : state)
+         (full f1 : list event) (n : node) (f2 : list event),
+    accepts_opt cs g c d0 tr = Some (st, full) -> full = f1 ++ Cb CPost n :: f2 ->
+    forall x, In x (succ' g n) -> notified x f1 \/ root_refpush c x = true.
+Proof. exact postcopy_order_opt. Qed.
+Print Assumptions C04_postcopy_after_successors_any_callbacks.
+
+Theorem C04_callback_error_aborts_any_callbacks :
+  forall (cs : cbset) (g : graph) (c : cfg) (d0 : list node) (tr : list event) (st : state)
+         (full : list event) (k : cbk) (n : node),
+    accepts_opt cs g c d0 tr = Some (st, full) -> In (CbFail k n) tr -> returned st <> Some true.
+Proof. exact callback_error_opt. Qed.
+Print Assumptions C04_callback_error_aborts_any_callbacks.
